@@ -137,8 +137,16 @@ def oracle(c, h=2.0 ** -7):
         continue
       ej = np.zeros(n); ej[j] = h
       ek = np.zeros(n); ek[k] = h
-      num = (f(s + ej + ek) - f(s + ej - ek) - f(s - ej + ek) + f(s - ej - ek)) / (4 * h * h)
-      tol = 2e-3 * (1 + abs(num)) + 50 * h * h * (1 + abs(num))
+      def sd(h):
+        ej = np.zeros(n); ej[j] = h
+        ek = np.zeros(n); ek[k] = h
+        vs = [f(s + ej + ek), f(s + ej - ek), f(s - ej + ek), f(s - ej - ek)]
+        return (vs[0] - vs[1] - vs[2] + vs[3]) / (4 * h * h), 8 * np.finfo(float).eps * max(abs(v) for v in vs) / (4 * h * h)
+      num, noise = sd(h)
+      num2, noise2 = sd(h / 2)
+      # the truncation error of the difference quotient (fourth derivatives: large on narrow ranges) is measured by halving the step,
+      # the rounding error by the magnitude of the costs: an alarm needs a quotient that is resolved
+      tol = 2e-3 * (1 + abs(num)) + 50 * h * h * (1 + abs(num)) + 2 * abs(num - num2) + noise + noise2
       if abs(num - H[j, k]) > tol:
         return 'hess[%d][%d] = %.6g but the second difference of cost is %.6g' % (j, k, H[j, k], num)
   if L['cls'] != 'TDevice':
